@@ -146,7 +146,8 @@ mod std_hooks {
     static PROC: OnceLock<ProcCfg> = OnceLock::new();
     static ENTERED: AtomicUsize = AtomicUsize::new(0); // searches started
     static DONE: AtomicUsize = AtomicUsize::new(0); // searches finished
-    static ANSWERED: AtomicUsize = AtomicUsize::new(0); // bestmove lines printed
+    static ANSWERED_UPTO: AtomicUsize = AtomicUsize::new(0); // value of ENTERED when the last bestmove was printed
+    static GOS_HANDLED: AtomicUsize = AtomicUsize::new(0); // go commands completed by the loop
     static INFOS: AtomicUsize = AtomicUsize::new(0); // info lines of the current search
     static IO_AFTER_DONE: AtomicUsize = AtomicUsize::new(0); // io polls since the search finished
 
@@ -202,8 +203,7 @@ mod std_hooks {
         // everything it sent had a chance to be received (one try_recv per poll)
         let entered = ENTERED.load(SeqCst);
         let done = DONE.load(SeqCst);
-        let answered = ANSWERED.load(SeqCst);
-        if entered == done && done == answered + 1 {
+        if entered == done && entered > ANSWERED_UPTO.load(SeqCst) {
             let polls = IO_AFTER_DONE.fetch_add(1, SeqCst);
             return Some(polls >= INFOS.load(SeqCst) + 2);
         }
@@ -228,7 +228,7 @@ mod std_hooks {
             if msg.starts_with("info") {
                 INFOS.fetch_add(1, SeqCst);
             } else if msg.starts_with("bestmove") {
-                ANSWERED.fetch_add(1, SeqCst);
+                ANSWERED_UPTO.store(ENTERED.load(SeqCst), SeqCst);
             }
         }
         false
@@ -260,7 +260,9 @@ mod std_hooks {
         }
         INFOS.store(0, SeqCst);
         IO_AFTER_DONE.store(0, SeqCst);
-        let gen = ENTERED.fetch_add(1, SeqCst);
+        ENTERED.fetch_add(1, SeqCst);
+        // one clock / depth entry per go command, whether or not it started a search
+        let gen = GOS_HANDLED.load(SeqCst);
         if let Some(clock) = &cfg.clock {
             PROC_SEARCH.with(|c| c.set(Some((0, nth(clock, gen).unwrap_or(u64::MAX)))));
         }
@@ -280,6 +282,9 @@ mod std_hooks {
 
     // Called at the end of every iteration of the UCI loop
     pub fn loop_state(buffer: &str, board: &BoardState, draw_table: &DrawTable) {
+        if buffer == "go" || buffer.starts_with("go ") {
+            GOS_HANDLED.fetch_add(1, SeqCst);
+        }
         if proc_cfg().dump {
             eprintln!(
                 "VERIF-STATE cmd=[{}] {} table=[{}]",
